@@ -70,7 +70,11 @@ def render_step(i, step):
         d = {"bare": "", "pre": "    @icontract.require(p_{0})\n", "post": "    @icontract.ensure(q_{0})\n",
              "prepostsnap": "    @icontract.snapshot(lambda x: x, name='s_{0}')\n    @icontract.require(p_{0})\n    @icontract.ensure(q_{0})\n"}[m].format(name)
         body.append(d + "    def m(self, x=1):\n        return x\n")
-    if step.get("p", "-") == "extset":
+    if step.get("p", "-") == "extset_root":
+        # extend the property of the ROOT class with a setter, whatever the bases of this class are: the getter is the root's
+        # function although another base may carry further contracts for the getter
+        body.append("    @X0.p.setter\n    def p(self, value):\n        pass\n")
+    elif step.get("p", "-") == "extset":
         # extend the INHERITED property with a setter only; getter (and its contracts) stay the base's
         body.append("    @{}.p.setter\n    def p(self, value):\n        pass\n".format(step["bases"][0] if step["bases"] else "object"))
     elif step.get("p", "-") != "-":
@@ -188,8 +192,12 @@ def steps_for(existing, tier):
     for bases in base_choices:
         for inv in inv_opts:
             for m in m_opts:
-                for p in (["-", "extset"] if tier == "quick" else (["-"] if tier == "tiny" else PROP_OPTS)):
-                    if p == "extset" and (not bases or m != "-" or inv not in ("-", "C")):
+                for p in (["-", "extset", "extset_root", "post"] if tier == "quick" else (["-"] if tier == "tiny" else PROP_OPTS + ["extset_root"])):
+                    if p in ("extset", "extset_root") and (not bases or m != "-" or inv not in ("-", "C")):
+                        continue
+                    if p == "extset_root" and bases == ["X0"]:
+                        continue  # the same as extset
+                    if p == "post" and tier == "quick" and (m != "-" or inv != "-"):
                         continue
                     out.append({"op": "class", "bases": bases, "inv": inv, "m": m, "p": p})
     for c in (["pre"] if tier in ("quick", "tiny") else ["pre", "prepostsnap"]):
@@ -259,6 +267,14 @@ def check_history(history, acc, tier):
     feats = {"depth": len(history), "op": step["op"], "nbases": len(step.get("bases", [])), "inv": step.get("inv"), "m": step.get("m"),
              "p": step.get("p"), "status": status,
              "root_inv": history[0].get("inv"), "bases_inv": "/".join(history[int(b[1:])].get("inv", "-") for b in step.get("bases", []))}
+    if step.get("p") == "extset_root":
+        anc, todo = set(), list(step.get("bases", []))
+        while todo:
+            b = todo.pop()
+            if b not in anc:
+                anc.add(b)
+                todo += history[int(b[1:])].get("bases", [])
+        feats["root_is_ancestor"] = "X0" in anc
     nev = sum(len(v[1]) for v in after.values())
     acc.case(key, True, nev, status)
     spared = affected_by(history[:k], step)
